@@ -68,7 +68,8 @@ XBW::XBW(std::istream &input) {
       unmap[mapping[i]] = i;
     }
 
-  delete ((SequenceBuilderWaveletTree *)sbb);
+  // Releasing the sequence builder also releases the bitsequence builder
+  delete ((SequenceBuilderWaveletTree *)ssb);
 
   // Free the temporary arrays
   delete[] alphaInt;
